@@ -81,6 +81,10 @@ class stabilizerEngine(quantumEngine):
 
         num = self.activeQubits
 
+        # Check if we are still allowed to add this many qubits
+        if num + qubit.num_qubits > self.maxQubits:
+            raise noQubitError("No more qubits available in register.")
+
         self.qubitReg = self.qubitReg.tensor_product(qubit)
 
         return num
